@@ -517,6 +517,46 @@ func (c *Ctx) checkExprSemantics(r *Report, rule string) bool {
 				}
 			}
 		}
+		// … and right after each single malformed input (a state poisoned by one failure and healed by the next call
+		// would go unnoticed above)
+		if nBad == 0 {
+			probe := corpus[len(corpus)/2]
+			for _, e := range corpus {
+				for _, f := range e.fields {
+					if f.sub != nil {
+						probe = e
+					}
+				}
+			}
+			pw := map[string]string{}
+			probe.flatten("", pw)
+			pin := probe.render(1)
+			for _, m := range append([]string{"}", `= "x"`, "1024", "A{a=B{b=C{c=D{d"}, exprMalformed(false)...) {
+				if strings.TrimSpace(m) == "" || refAccepts(m) {
+					continue
+				}
+				nHist += 2
+				if o := run(m); strings.HasPrefix(o.what, "ood") {
+					r.Inconclusive(key, "%s (input %q)", o.what, m)
+					return false
+				}
+				o := run(pin)
+				if strings.HasPrefix(o.what, "ood") {
+					r.Inconclusive(key, "%s (input %q)", o.what, pin)
+					return false
+				}
+				same := o.what == "" && !o.err && len(o.m) == len(pw)
+				for k, v := range pw {
+					if gv, ok := o.m[k]; !ok || gv != v {
+						same = false
+					}
+				}
+				if !same {
+					fail("right after the malformed input %q, Parse(%q) = (%s, error=%v) %s, want %s", m, pin, show(o.m), o.err, o.what, show(pw))
+					break
+				}
+			}
+		}
 		for _, e := range corpus {
 			if len(e.fields) == 0 || nBad > 0 {
 				continue
